@@ -11,7 +11,7 @@ m = {
     "setup_cmd": "cd /verif && bin/check setup",
     "hooks": {
         "guard": "verif",
-        "enable": "bin/check builds with `go1.26.8 test -c -tags verif ./checks/` in /verif/sim (go.mod: replace github.com/ansible/receptor => /repo)",
+        "enable": "bin/check builds with `go1.26.8 test -c -tags verif -overlay <scratch>/lockyield/overlay.json ./checks/` in /verif/sim (go.mod: replace github.com/ansible/receptor => /repo); the overlay is generated at build time from /repo's working tree by sim/cmd/lockyield and only adds verifhook.Yield(\"lock\", site) before each Lock()/RLock() statement of pkg/netceptor (nothing in /repo is touched)",
         "baseline_off_cmd": "cd /repo && go test -vet=off -count=1 -timeout 25m ./...",
         "source_commits": HOOK_COMMITS,
         "add_only": True,
